@@ -31,7 +31,7 @@ ArgsOf(st, c) ==
    LET ra == VJ!ResolveA(st, c)
        rb == IF c.op \in TwoPathMacros THEN VJ!ResolveB(st, c) ELSE [o |-> "ok", p |-> <<>>]
    IN [p |-> ra.p, pok |-> ra.o = "ok", q |-> rb.p, qok |-> rb.o = "ok", d |-> c.d, m |-> c.m,
-       rel |-> IF c.op = "readlink" THEN c.bc ELSE <<>>, relabs |-> c.relabs = "t",
+       rel |-> IF c.op = "readlink" THEN c.bc ELSE <<>>, relabs |-> c.relabs # "f",       \* "t": the expectation is spelled as an absolute path, "u": as an unclean relative text - either way not the link's text
        pwhy |-> ra.o, qwhy |-> rb.o]
 
 \* ---- classes for the signature ----
